@@ -24,6 +24,7 @@ pub struct Config {
 
 thread_local! {
     pub static STEPS: Cell<u64> = const { Cell::new(0) };
+    static STEPS_TOTAL: Cell<u64> = const { Cell::new(0) };
     static STEP_LIMIT: Cell<u64> = const { Cell::new(u64::MAX) };
     static STEP_LIMIT_HIT: Cell<bool> = const { Cell::new(false) };
     static END_STATE_BAD: RefCell<Option<(usize, usize, usize)>> = const { RefCell::new(None) };
@@ -34,7 +35,12 @@ thread_local! {
     static YIELD_FN: Cell<Option<fn()>> = const { Cell::new(None) };
 }
 
+pub fn steps_total() -> u64 {
+    STEPS_TOTAL.with(|s| s.get())
+}
+
 fn step_hook() {
+    STEPS_TOTAL.with(|s| s.set(s.get() + 1));
     let n = STEPS.with(|s| {
         let n = s.get() + 1;
         s.set(n);
@@ -47,11 +53,15 @@ fn step_hook() {
         let base = b.get();
         if base != 0 {
             let used = base.saturating_sub(addr);
-            STACK_MAX.with(|m| {
-                if used > m.get() {
-                    m.set(used)
-                }
-            });
+            // (shuttle continuations run on heap-allocated stacks: addresses unrelated to the
+            // probe's base are ignored)
+            if used < (8 << 20) {
+                STACK_MAX.with(|m| {
+                    if used > m.get() {
+                        m.set(used)
+                    }
+                });
+            }
         }
     });
     if n > STEP_LIMIT.with(|l| l.get()) {
